@@ -25,7 +25,8 @@
    carry its signature FOR the block and reports it as a member of the validator set of the
    evidence's height; the unrepaired code counted every slot that is not absent, i.e. also
    precommits for nil, whose signatures nobody verifies); [byz_validators_gen false] is
-   the unrepaired function (Props.v: C11_unrepaired_F57_refuted). *)
+   the unrepaired function (Props.v: C11_unrepaired_F57_refuted).  VerifyLightClientAttack is
+   modelled WITH the repair F57-2 (every signature for the conflicting block is verified). *)
 From Coq Require Import List ZArith NArith Bool.
 From TM Require Import Generated.Consts.
 Import ListNotations.
@@ -217,12 +218,22 @@ Definition abci_of (l : lca) : list (Z * N * Z * Z * Z * Z) :=
   map (fun v => (abci_lca_type, va_addr v, va_power v, l_common l, l_time l, l_total l))
       (match l_byz l with Some b => b | None => [] end).
 
+(* repair F57-2 (fixes/F57-2-*.diff): every signature FOR the conflicting block is verified (slot
+   address = the conflicting validator of that index, signature under its key), not only those
+   the two commit checks read before they have tallied enough power - GetByzantineValidators
+   reads all of them.  Without the repair this check is absent (the unrepaired code admits
+   evidence naming a validator through a signature that is not its own; the harness generates
+   such commits only with VERIF_C11_FORGED=1). *)
+Definition sigs_for_block_ok (l : lca) : bool :=
+  forallb (fun s => negb (cs_flag s =? block_id_flag_commit) || cs_ok s) (l_sigs l).
+
 (* VerifyLightClientAttack; headers come with the height they were loaded for *)
 Definition verify_lca (l : lca) (common trusted : Z * header) (common_vals : valset) : bool :=
   let '(ch, _) := common in
   let '(th, t) := trusted in
   if (if negb (ch =? l_height l) then negb (l_trusting_ok l) else header_invalid l t) then false
   else if negb (l_light_ok l) then false
+  else if negb (sigs_for_block_ok l) then false        (* repair F57-2 *)
   else if negb (l_total l =? vs_total common_vals) then false
   else if (l_height l >? th) && (l_ctime l >? h_time t) then false
   else if (h_hash t =? l_chash l)%N then false
